@@ -41,10 +41,13 @@ fn main() {
         "C03" => frmon::c03::run(&ctx),
         "C04" => frmon::c04::run(&ctx),
         "C05" => frmon::c05::run(&ctx),
+        "C07" => frmon::c07::run(&ctx),
         "C08" => frmon::c08::run(&ctx),
         "C10" => frmon::c10::run(&ctx),
         "C11" => frmon::c11::run(&ctx),
         "C09" => frmon::c09::run(&ctx),
+        "C12" => frmon::c12::run(&ctx),
+        "C13" => frmon::c13::run(&ctx),
         "C15" => frmon::c15::run(&ctx),
         _ => {
             eprintln!("unknown property {}", prop);
